@@ -173,10 +173,13 @@ impl BirthInitializer {
             AliasType::Node => 0,
             AliasType::Device { id } => id,
         };
-        let mut alias = ((id_part as u64) << 32) | (hash as u64);
-        while self.metric_aliases.contains(&alias) {
-            alias += 1;
+        /* Resolve collisions inside the 32 bit hash part so the object id part of the alias is never changed */
+        let high = (id_part as u64) << 32;
+        let mut low = hash;
+        while self.metric_aliases.contains(&(high | low as u64)) {
+            low = low.wrapping_add(1);
         }
+        let alias = high | low as u64;
         self.metric_aliases.insert(alias);
         alias
     }
